@@ -334,8 +334,48 @@ fn must_reject(text: &str, what: &str, rep: &mut Report) {
     );
 }
 
+/// C07: the right operand of `&&` / `||` is evaluated only when the left one does not decide - also by the folding
+/// pass: a constant left operand that decides guards a right operand that would fail (or have effects) if evaluated
+fn short_circuit_templates(rep: &mut Report) {
+    let cases: [(&str, &str); 18] = [
+        ("false && (1 / 0 > 1)", "false"),
+        ("true || (1 / 0 > 1)", "true"),
+        ("x := 0; x != 0 && 10 / x > 1", "false"),
+        ("x := 0; x == 0 || 10 / x > 1", "true"),
+        ("x := 0; r := x != 0 && 10 % x > 1; r", "false"),
+        ("a := [1]; i := 5; i < 1 && a[i] > 0", "false"),
+        ("a := [1]; i := 5; i >= 1 || a[i] > 0", "true"),
+        ("s := 70; s < 64 && (1 << s) > 0", "false"),
+        ("e := 0 - 1; e >= 0 && 2 ** e > 0", "false"),
+        ("mk := (x: int) -> () -> bool { return () -> bool { return x != 0 && 10 / x > 1 } }; mk(0)()", "false"),
+        ("mk := (x: int) -> () -> bool { return () -> bool { return x == 0 || 10 / x > 1 } }; mk(0)()", "true"),
+        ("f := (x: int) -> bool { return x != 0 && 10 / x > 1 }; (f(0), f(2))", "(false, true)"),
+        ("x := 0; if x != 0 && 10 / x > 1 { 1 } else { 2 }", "2"),
+        ("c := mut 0; t := (v: bool) -> bool { c += 1; return v }; r := false && t(true); (r, *c)", "(false, 0)"),
+        ("c := mut 0; t := (v: bool) -> bool { c += 1; return v }; r := true || t(true); (r, *c)", "(true, 0)"),
+        ("c := mut 0; t := (v: bool) -> bool { c += 1; return v }; r := t(false) && t(true); (r, *c)", "(false, 1)"),
+        ("c := mut 0; t := (v: bool) -> bool { c += 1; return v }; r := t(true) && false; (r, *c)", "(false, 1)"),
+        ("c := mut 0; t := (v: bool) -> bool { c += 1; return v }; r := t(false) || true; (r, *c)", "(true, 1)"),
+    ];
+    for (src, want) in cases {
+        rep.evaluations += 1;
+        rep.count("short-circuit-templates");
+        let run = run_real(src, FUEL);
+        let got = match &run.outcome {
+            Outcome::Value(v) => canon(v),
+            other => other.tag(),
+        };
+        if got != want {
+            rep.violation(&format!("c07:short-circuit-template:{}", truncate(src, 60)), &format!("`{src}` gave {got}, expected {want} (the deciding left operand guards the right one)"), "diff", &format!("#template {want}\n{src}\n"));
+        }
+    }
+}
+
 pub fn run(cfg: &Cfg, rep: &mut Report, spec: &Spec) {
     let deadline = Deadline::new(cfg.budget_s);
+    if spec.prop == "C07" && cfg.shard == 0 {
+        short_circuit_templates(rep);
+    }
     if spec.prop == "C13" && cfg.shard == 0 {
         cell_negative_templates(rep);
     }
@@ -402,6 +442,19 @@ pub fn run(cfg: &Cfg, rep: &mut Report, spec: &Spec) {
 pub fn replay(cfg: &Cfg, payload: &str, rep: &mut Report, spec: &Spec) {
     // regenerate the program from its generator coordinates and judge it again
     let head = payload.lines().next().unwrap_or("");
+    if let Some(want) = head.strip_prefix("#template ") {
+        let src = payload.lines().skip(1).collect::<Vec<_>>().join("\n");
+        let run = run_real(&src, FUEL);
+        rep.evaluations += 1;
+        let got = match &run.outcome {
+            Outcome::Value(v) => canon(v),
+            other => other.tag(),
+        };
+        if got != want.trim() {
+            rep.violation(&format!("c07:short-circuit-template:{}", truncate(&src, 60)), &format!("`{src}` gave {got}, expected {want}"), "diff", payload);
+        }
+        return;
+    }
     if let Some(what) = head.strip_prefix("#must-reject ") {
         let text = format!("{}{}", crate::ast::PRELUDE, payload.lines().skip(1).collect::<Vec<_>>().join("\n"));
         must_reject(&text, what.trim(), rep);
